@@ -149,8 +149,15 @@ def run_rfigc(args, cwd):
 
 
 def exit_nonzero(res):
+    """would the process `pff hash ...` exit non-zero?  pff.py ends with sys.exit(main(...)): None -> 0, an int -> its low
+    8 bits (so a return value of 256 is exit status 0), anything else -> 1"""
     if res[0] == 'RET':
-        return bool(res[1])
+        r = res[1]
+        if r is None:
+            return False
+        if isinstance(r, (bool, int)):
+            return (int(r) & 0xFF) != 0
+        return True
     if res[0] == 'EXIT':
         return res[1] not in (0, None)
     return True
